@@ -28,6 +28,7 @@ import DiskfsModel.Proofs.Ext4Alloc
 import DiskfsModel.Proofs.Ext4AllocSlow
 import DiskfsModel.Proofs.Ext4Mkfs
 import DiskfsModel.Proofs.Ext4Links
+import DiskfsModel.Proofs.Ext4DirGrow
 namespace Diskfs.Ext4.C05
 open Diskfs.Ext4 Diskfs.Ext4.Alloc Diskfs.Ext4.Mkfs
 
@@ -318,5 +319,119 @@ example : step wState (.remove wGeo 3 [4, 4] false) = .refused wState := by deci
 def p16 : Params := ⟨16 * 1024 * 1024, 0, 0, 0, 0, 0, true, true, true⟩
 example : groupsOf p16 = 2 ∧ ipgOf p16 = 1024 ∧ chooseBs p16 = 1024 ∧ flexSizeOf p16 = 8 := by decide
 example : Fits ⟨1024, 16384, 8192, 2, 1024, 2048, 1, 256, 64, 1, 256, 8, true⟩ true := by decide
+
+end Diskfs.Ext4.C05
+
+/-! ### writeDirectory: growth and relocation of a directory (Model/Ext4/DirGrow.lean)
+
+  `DirGrow.writeDir` mirrors the decision writeDirectory takes about a directory's blocks (padding, in place,
+  growth by allocateExtents + mergeExtents, relocation when the merged list has more than 4 extents) on the
+  accounting machine; `pol` is allocateExtents' choice of blocks - the theorems hold for every `pol`. -/
+namespace Diskfs.Ext4.C05
+open Diskfs.Ext4 Diskfs.Ext4.Alloc Diskfs.Ext4.DirGrow
+
+/-- dir_write_keeps_inv: `counters = bitmaps` survives writeDirectory in every branch - padded, in place, grown,
+    relocated, and every refused call, whatever it leaves behind -/
+theorem dir_write_keeps_inv (geo : Geom) (pol : Acc → Nat → Option (List Run)) (bs : Nat) (s : Acc)
+    (old : List Extent) (nbytes : Nat) (h : AccInv s) : AccInv (writeDir geo pol bs s old nbytes).state :=
+  writeDir_inv geo pol bs s old nbytes h
+
+/-- dir_merge_keeps_blocks: mergeExtents (sort by file block, merge extents adjacent in file AND on disk, counts
+    added in uint16) maps every file block to the same disk block as its input, in file order, and keeps the
+    number of blocks - for every list of fewer than 65536 blocks -/
+theorem dir_merge_keeps_blocks (es : List Extent) (h : blockCount es < 65536) :
+    blocksOf (mergeExtents es) = blocksOf (sortE es) ∧ (blocksOf (mergeExtents es)).Perm (blocksOf es) ∧
+    blockCount (mergeExtents es) = blockCount es :=
+  mergeExtents_blocks es h
+example : blockCount [(⟨2, 12, 1⟩ : Extent), ⟨0, 10, 2⟩] < 65536 ∧ mergeExtents [⟨2, 12, 1⟩, ⟨0, 10, 2⟩] = [⟨0, 10, 3⟩] := by decide
+
+/-- dir_grown_owns_old_and_extra: when writeDirectory grows a directory, the extra blocks come from one accepted
+    allocateExtents call for exactly `required - have` blocks, the free counter goes down by exactly that, the
+    inode's list (at most 4 extents) holds `required` blocks: the old (file block, disk block) pairs and the extra
+    ones, in file order (old ++ extra when the old list is contiguous from file block 0), nothing is orphaned -/
+theorem dir_grown_owns_old_and_extra (geo : Geom) (pol : Acc → Nat → Option (List Run)) (bs : Nat) (s : Acc)
+    (old : List Extent) (nbytes : Nat) (hreq : requiredBlocks bs nbytes < 65536)
+    (h : (writeDir geo pol bs s old nbytes).kind = .grown) :
+    ∃ s1 extra, allocCall geo pol s (blockCount old) (requiredBlocks bs nbytes - blockCount old) = some (s1, extra) ∧
+      blockCount old < requiredBlocks bs nbytes ∧
+      (writeDir geo pol bs s old nbytes).state = s1 ∧
+      (writeDir geo pol bs s old nbytes).extents = mergeExtents (old ++ extra) ∧
+      (writeDir geo pol bs s old nbytes).extents.length ≤ 4 ∧
+      (writeDir geo pol bs s old nbytes).orphans = [] ∧
+      blockCount (writeDir geo pol bs s old nbytes).extents = requiredBlocks bs nbytes ∧
+      s1.sbFreeBlocks + (requiredBlocks bs nbytes - blockCount old) = s.sbFreeBlocks ∧
+      blocksOf (writeDir geo pol bs s old nbytes).extents = blocksOf (sortE (old ++ extra)) ∧
+      (contigFrom 0 old → blocksOf (writeDir geo pol bs s old nbytes).extents = blocksOf old ++ blocksOf extra) :=
+  writeDir_grown geo pol bs s old nbytes hreq h
+example : requiredBlocks 1024 4096 < 65536 ∧ (writeDir xGeo fastPol 1024 (xState false) (xOld.take 3) 4096).kind = .grown ∧
+    contigFrom 0 (xOld.take 3) := by decide
+
+/-- dir_relocated_accounting: when writeDirectory relocates a directory (the merged list would have more than 4
+    extents), two allocateExtents calls were accepted - the extra blocks, then `required` fresh ones numbered from
+    file block 0 in at most 4 extents -, the blocks released are the blocks of mergeExtents(old ++ extra): the old
+    blocks and the extra ones just taken, each once, all marked; the directory owns exactly the fresh blocks and
+    the superblock's free counter has changed by exactly (old count - new count); nothing is orphaned -/
+theorem dir_relocated_accounting (geo : Geom) (pol : Acc → Nat → Option (List Run)) (bs : Nat) (s : Acc)
+    (old : List Extent) (nbytes : Nat) (hreq : requiredBlocks bs nbytes < 65536)
+    (h : (writeDir geo pol bs s old nbytes).kind = .relocated) :
+    ∃ s1 extra s2 fresh,
+      allocCall geo pol s (blockCount old) (requiredBlocks bs nbytes - blockCount old) = some (s1, extra) ∧
+      allocCall geo pol s1 0 (requiredBlocks bs nbytes) = some (s2, fresh) ∧
+      4 < (mergeExtents (old ++ extra)).length ∧
+      (writeDir geo pol bs s old nbytes).extents = fresh ∧ fresh.length ≤ 4 ∧ contigFrom 0 fresh ∧
+      blockCount fresh = requiredBlocks bs nbytes ∧
+      (writeDir geo pol bs s old nbytes).orphans = [] ∧
+      blocksMarkedD geo s2 (diskBlocks (mergeExtents (old ++ extra))) = true ∧
+      (writeDir geo pol bs s old nbytes).state = deallocBlocks true geo s2 (diskBlocks (mergeExtents (old ++ extra))) ∧
+      (diskBlocks (mergeExtents (old ++ extra))).Perm (diskBlocks old ++ diskBlocks extra) ∧
+      (writeDir geo pol bs s old nbytes).state.sbFreeBlocks + requiredBlocks bs nbytes = s.sbFreeBlocks + blockCount old :=
+  writeDir_relocated geo pol bs s old nbytes hreq h
+example : requiredBlocks 1024 5120 < 65536 ∧ (writeDir xGeo fastPol 1024 (xState false) xOld 5120).kind = .relocated := by decide
+
+/-- dir_refused_before_alloc_unchanged: a call that pads, writes in place or is refused for the extra blocks leaves
+    the state and the directory's extent list untouched -/
+theorem dir_refused_before_alloc_unchanged (geo : Geom) (pol : Acc → Nat → Option (List Run)) (bs : Nat) (s : Acc)
+    (old : List Extent) (nbytes : Nat)
+    (h : (writeDir geo pol bs s old nbytes).kind = .padded ∨ (writeDir geo pol bs s old nbytes).kind = .inplace ∨
+         (writeDir geo pol bs s old nbytes).kind = .refusedExtra) :
+    (writeDir geo pol bs s old nbytes).state = s ∧ (writeDir geo pol bs s old nbytes).extents = old ∧
+    (writeDir geo pol bs s old nbytes).orphans = [] :=
+  writeDir_unchanged geo pol bs s old nbytes h
+example : (writeDir xGeo fastPol 1024 (xState true) xOld 6000).kind = .refusedExtra := by decide
+
+/-- dir_refused_relocation_orphans: the two refusals INSIDE the relocation return the error after blocks were
+    taken: the directory keeps its old extent list, the invariant holds (dir_write_keeps_inv), but the extra blocks
+    (fresh allocation failed) resp. the extra and the fresh blocks (fresh allocation in more than 4 extents) stay
+    marked and out of the free counter with no owner - at least one block in the first case -/
+theorem dir_refused_relocation_orphans (geo : Geom) (pol : Acc → Nat → Option (List Run)) (bs : Nat) (s : Acc)
+    (old : List Extent) (nbytes : Nat) :
+    ((writeDir geo pol bs s old nbytes).kind = .refusedFresh →
+      (writeDir geo pol bs s old nbytes).extents = old ∧ 0 < (writeDir geo pol bs s old nbytes).orphans.length ∧
+      (writeDir geo pol bs s old nbytes).state.sbFreeBlocks + (writeDir geo pol bs s old nbytes).orphans.length = s.sbFreeBlocks) ∧
+    ((writeDir geo pol bs s old nbytes).kind = .refusedMany →
+      (writeDir geo pol bs s old nbytes).extents = old ∧
+      (writeDir geo pol bs s old nbytes).orphans.length = 2 * requiredBlocks bs nbytes - blockCount old ∧
+      (writeDir geo pol bs s old nbytes).state.sbFreeBlocks + (writeDir geo pol bs s old nbytes).orphans.length = s.sbFreeBlocks) := by
+  refine ⟨fun h => ?_, fun h => ?_⟩
+  · obtain ⟨_, _, _, _, _, h4, _, h6, h7⟩ := writeDir_refusedFresh geo pol bs s old nbytes h
+    exact ⟨h4, h6, h7⟩
+  · obtain ⟨_, _, _, _, _, _, _, _, h5, _, h7, h8⟩ := writeDir_refusedMany geo pol bs s old nbytes h
+    exact ⟨h5, h7, h8⟩
+example : (writeDir xGeo manyPol 1024 (xState false) xOld 5120).kind = .refusedMany := by decide
+
+/-- cex_ext4_dir_relocate_leak (finding ext4-dir-relocate-refused-leaks-blocks): a directory of four single-block
+    extents needs a fifth block, one block (10) is free and not adjacent: writeDirectory takes it, finds no room for
+    the 5 fresh blocks and returns the error - block 10 was free before, is marked afterwards and out of the
+    counters, and the directory still lists its four old extents -/
+theorem cex_ext4_dir_relocate_leak :
+    AccInv (xState true) ∧ blocksMarkedD xGeo (xState true) (diskBlocks xOld) = true ∧
+    (writeDir xGeo fastPol 1024 (xState true) xOld 5120).kind = .refusedFresh ∧
+    (writeDir xGeo fastPol 1024 (xState true) xOld 5120).extents = xOld ∧
+    (writeDir xGeo fastPol 1024 (xState true) xOld 5120).orphans = [10] ∧
+    blockMarked xGeo (writeDir xGeo fastPol 1024 (xState true) xOld 5120).state 10 = true ∧
+    blockMarked xGeo (xState true) 10 = false ∧
+    (writeDir xGeo fastPol 1024 (xState true) xOld 5120).state.sbFreeBlocks = 0 ∧
+    AccInv (writeDir xGeo fastPol 1024 (xState true) xOld 5120).state :=
+  DirGrow.cex_ext4_dir_relocate_leak
 
 end Diskfs.Ext4.C05
